@@ -286,6 +286,7 @@ def clustering_coef_wu_sign(W, coef_type='default'):
         Costantini & Perugini (2014) PLOS ONE 9:e88669
     '''
     n = len(W)
+    W = W.copy()
     np.fill_diagonal(W, 0)
 
     if coef_type == 'default':
